@@ -286,7 +286,10 @@ func (hdr *TxHeader) innerHash() [sha256.Size]byte {
 		}
 	default:
 		{
-			panic(fmt.Errorf("missing tx hash calculation method for version %d", hdr.Version))
+			// no layout is defined for this version: such a header can not come from the
+			// transaction log (it is rejected when read), only from an untrusted message
+			// e.g. a proof. The version is already part of the hashed bytes, so the
+			// digest of the remaining common fields never matches the one of a valid header
 		}
 	}
 
